@@ -3332,6 +3332,8 @@ impl KotoVm {
                 self.call_callable(
                     CallInfo {
                         instance: Some(info.frame_base),
+                        // The packed arguments have already been unpacked
+                        packed_arg_count: 0,
                         ..info
                     },
                     f,
